@@ -559,6 +559,191 @@ def mask_list(shape, tier, minkeep):
 
 
 # ---------------------------------------------------------------------------------------------
+# parameter histories: public parameters changed on an EXISTING node (annealing tau, re-centring an activation, new levels)
+
+PARAM_ALPH = {'a': [1, 0.3, 4], 'x0': [0, 0.7, -0.7], 'y0': [0, 0.7, -0.7], 'tau': [1.0, 0.2, 3.0]}
+LEVEL_ALPH = {'r3': [0, 1, 2], 'g3': [0, 1, 3], 'n3': [-1, 0, 2], 'r4': [0, 1, 3, 4]}
+ACT_BACKGROUNDS = [{'a': 1, 'x0': 0, 'y0': 0}, {'a': 0.3, 'x0': 0.7, 'y0': -0.7}]
+# what happens on the node built with p0 before the attribute is set ('f' forward, 'b' backprop, 'set1' attribute := p1, 'set0' := p0)
+ORDERS = {'fb-set-fb': ['f', 'b', 'set1'], 'f-set-fb': ['f', 'set1'], 'set-fb': ['set1'],
+          'roundtrip': ['f', 'b', 'set1', 'f', 'b', 'set0'],
+          'fb-set-b': ['f', 'b', 'set1']}      # last one: stateless backprop(x) straight after the set (element-wise nodes only)
+
+
+class _Subject:
+    """one node under a parameter history: how to build it at a parameter value, set the parameter, run it"""
+
+    def __init__(self, case, seed):
+        self.kind = kind = case['kind']
+        self.seed = seed
+        self.pname = case['param']
+        self.p0, self.p1 = case['p0'], case['p1']
+        self.case = case
+        if kind == 'act':
+            self.cls = case['node']
+            self.sigbase = self.cls
+        elif kind == 'gumbel':
+            self.sigbase = 'GumbelSoftmax'
+        else:
+            self.sigbase = 'DiscreteEncoder'
+
+    # -- operating point / shapes for a parameter value ------------------------------------------------
+    def K(self, p):
+        c = self.case
+        if self.kind == 'gumbel':
+            return c['shape'][-1]
+        return len(LEVEL_ALPH[p]) if self.pname == 'levels' else len(LEVEL_ALPH[c['levels']])
+
+    def x(self, p):
+        c = self.case
+        if self.kind == 'act':
+            return act_points('mat', 0.7)
+        lead = tuple(c['shape'][:-1]) if self.kind == 'gumbel' else tuple(c['lead'])
+        K = self.K(p)
+        rows = row_alphabet(K, 'quick', small=True)
+        shape = lead + (K,)
+        return chunk_array(rows, shape, (c['chunk'] * nchunks(rows, shape)) // 3)
+
+    def out_shape(self, p):
+        x = self.x(p)
+        return x.shape[:-1] if self.kind.startswith('enc') else x.shape
+
+    def scales(self, p):
+        """(h, gscale, fscale) at parameter value p"""
+        c = self.case
+        if self.kind == 'act':
+            prm = dict(c['bg'])
+            prm[self.pname] = p
+            return H0 / prm['a'], prm['a'], 1.0 + abs(prm['y0'])
+        if self.kind == 'gumbel':
+            return H0 * p, 1 / p, 1.0
+        tau = p if self.pname == 'est.tau' else (c['tau'] or 1.0)      # Softmax estimator: no temperature
+        lv = LEVEL_ALPH[p] if self.pname == 'levels' else LEVEL_ALPH[c['levels']]
+        lmax = float(max(abs(v) for v in lv))
+        return H0 * tau, lmax / tau, lmax
+
+    # -- construction and the public setter ----------------------------------------------------------
+    def _rng(self, p):
+        return FrozenRNG(frozen_noise(self.x(p).shape, self.case.get('noise', 'seeded'), self.seed))
+
+    def build(self, p):
+        c = self.case
+        if self.kind == 'act':
+            prm = dict(c['bg'])
+            prm[self.pname] = p
+            return ACT[self.cls](**prm)
+        if self.kind == 'gumbel':
+            g = act.GumbelSoftmax(tau=p)
+            g.rng = self._rng(p)
+            return g
+        tau = p if self.pname == 'est.tau' else c['tau']
+        if tau is None:
+            est = act.Softmax()
+        else:
+            est = act.GumbelSoftmax(tau=tau)
+            est.rng = self._rng(p)
+        lv = LEVEL_ALPH[p] if self.pname == 'levels' else LEVEL_ALPH[c['levels']]
+        return act.DiscreteEncoder(est, np.array(lv))
+
+    def set(self, node, p):
+        if self.pname == 'est.tau':
+            node.est.tau = p
+        elif self.pname == 'levels':
+            node.levels = np.array(LEVEL_ALPH[p])
+            if hasattr(node.est, 'rng'):
+                node.est.rng = self._rng(p)     # the frozen draws are per input shape (harness object, not library state)
+        else:
+            setattr(node, self.pname, p)
+
+    # -- running ---------------------------------------------------------------------------------------
+    def backprop(self, R, node, p, ybar, sig):
+        """input gradient for upstream ybar (validated ndarray or None)"""
+        x = self.x(p)
+        if self.kind == 'act':
+            bp = _valid(R, R.call(node.backprop, x.copy(), sig=sig, hygiene=False), sig, shape=x.shape, what='backprop(x)')
+            return None if bp is None else ybar * bp
+        return _valid(R, R.call(node.backprop, ybar.copy(), sig=sig, hygiene=False), sig, shape=x.shape, what='backprop(grad)')
+
+
+def run_param_history(case, seed, R):
+    S = _Subject(case, seed)
+    order = case['order']
+    node = S.build(S.p0)
+    cur = S.p0
+    pre = f'{S.sigbase}.backprop:param-history:{S.pname}'
+    fsig = f'{S.sigbase}.forward:param-history:{S.pname}'
+    for stepname in ORDERS[order]:
+        if stepname == 'f':
+            R.call(node.forward, S.x(cur).copy(), sig=fsig, hygiene=False)
+        elif stepname == 'b':
+            S.backprop(R, node, cur, dense(S.out_shape(cur), seed, 91, complex_=False), pre)
+        else:
+            cur = S.p1 if stepname == 'set1' else S.p0
+            S.set(node, cur)
+    if R.violations:
+        return                                     # the prefix itself failed: already reported
+    x = S.x(cur)
+    h, gs, fs = S.scales(cur)
+    fresh = S.build(cur)
+    ups = upstreams(S.out_shape(cur), seed, 92)
+    what = f'{S.sigbase} {S.pname}: {S.p0} -> {S.p1} ({order})'
+    if order == 'fb-set-b':
+        # element-wise nodes: backprop(x) needs no preceding forward; ask for it first, on the state left by the history
+        for name, ybar in ups[-1:]:
+            gm = S.backprop(R, node, cur, ybar, pre)
+            gf = S.backprop(R, fresh, cur, ybar, pre)
+            if gm is not None and gf is not None:
+                R.expect_close(gm, gf, 8 * EPS * np.abs(gf) + TINY, pre, what + ': backprop straight after the set differs from a fresh node')
+    ym = _valid(R, R.call(node.forward, x.copy(), sig=fsig, hygiene=False), fsig, complex_ok=False, what='forward after set')
+    yf = _valid(R, R.call(fresh.forward, x.copy(), sig=fsig, hygiene=False), fsig, complex_ok=False, what='forward of a fresh node')
+    if ym is None or yf is None:
+        return
+    R.expect_close(ym, yf, 8 * EPS * np.abs(yf) + TINY, fsig, what + ': forward differs from a node freshly constructed with the new value')
+    jac = fd_jacobian(R, node.forward, x, h, pre, fscale=fs)
+    if jac is None:
+        return
+    R.call(node.forward, x.copy(), sig=fsig, hygiene=False)     # state of the node = operating point x again
+    for name, ybar in ups:
+        gm = S.backprop(R, node, cur, ybar, pre)
+        gf = S.backprop(R, fresh, cur, ybar, pre)
+        if gm is not None and gf is not None:
+            R.expect_close(gm, gf, 8 * EPS * np.abs(gf) + TINY, pre, what + f' ybar={name}: backprop differs from a node freshly constructed with the new value')
+        judge(R, jac, ybar, gm, pre, what + f' ybar={name}', gs)
+    R.outcome(order)
+
+
+def param_history_cases():
+    def pairs(al):
+        return [(a, b) for a in al for b in al if a != b]
+    cases = []
+    for cls in ACT:
+        for bg in ACT_BACKGROUNDS:
+            for pn in ('a', 'x0', 'y0'):
+                for p0, p1 in pairs(PARAM_ALPH[pn]):
+                    for o in ORDERS:
+                        cases.append({'kind': 'act', 'node': cls, 'bg': bg, 'param': pn, 'p0': p0, 'p1': p1, 'order': o})
+    stateful = [o for o in ORDERS if o != 'fb-set-b']
+    for shape in ([2, 3], [3, 2], [2, 2, 3]):
+        for nz in ('const', 'seeded'):
+            for p0, p1 in pairs(PARAM_ALPH['tau']):
+                for o in stateful:
+                    for j in range(3):
+                        cases.append({'kind': 'gumbel', 'shape': shape, 'noise': nz, 'param': 'tau', 'p0': p0, 'p1': p1, 'order': o, 'chunk': j})
+    for lead in ([2], [3], [2, 2]):
+        for lv in ('r3', 'r4'):
+            for p0, p1 in pairs(PARAM_ALPH['tau']):
+                for o in stateful:
+                    for j in range(2):
+                        cases.append({'kind': 'enc', 'lead': lead, 'levels': lv, 'param': 'est.tau', 'p0': p0, 'p1': p1, 'order': o, 'chunk': j})
+    for lead in ([2], [2, 2]):
+        for tau in (None, 0.2):
+            for p0, p1 in pairs(sorted(LEVEL_ALPH)):
+                for o in stateful:
+                    cases.append({'kind': 'enc', 'lead': lead, 'tau': tau, 'param': 'levels', 'p0': p0, 'p1': p1, 'order': o, 'chunk': 1})
+    return cases
+
+
+# ---------------------------------------------------------------------------------------------
 # plan
 
 def units(tier, seed):
@@ -617,4 +802,10 @@ def units(tier, seed):
                   '(n<=4; larger: full, each single exclusion, each single element, alternating, halves) x model patterns x data patterns (incl. the optimum, '
                   'zeros, +-1e-3, +-1e3, scalar targets); every basis direction of the model incl. masked-out elements (gradient must be exactly 0 there); '
                   'operating points where the cost itself is 0/0 (constant model under the mask for the gain fit) are skipped and counted'),
+        ScopeUnit('node_param_history', param_history_cases(), run_param_history,
+                  step + 'public parameters changed on an EXISTING node: Tanh/Arctan/Softplus/Sigmoid .a/.x0/.y0 (two backgrounds), GumbelSoftmax.tau, '
+                  'DiscreteEncoder.est.tau and DiscreteEncoder.levels (same and different K; Softmax and frozen Gumbel estimator); EVERY ordered pair (p0,p1), p0!=p1, of '
+                  f'the alphabets {PARAM_ALPH} / levels {LEVEL_ALPH} x orderings {sorted(ORDERS)} (forward/backprop at p0 before the set, forward only, nothing, '
+                  'p0->p1->p0 round trip, backprop straight after the set for the stateless element-wise nodes); after the last set the node must (i) give the forward '
+                  'and the backprop of a node freshly constructed with that value (8 eps) and (ii) its backprop must match the measured directional derivatives of its own forward'),
     ]
